@@ -11,6 +11,7 @@ import (
 	"encoding/json"
 	"fmt"
 	"reflect"
+	"strings"
 
 	"github.com/antonmedv/expr/checker"
 	"github.com/antonmedv/expr/conf"
@@ -55,6 +56,9 @@ func (r *replayer) soundCase(c Case) {
 	lg := &Log{}
 	ct, ctOK := checkedType(c.Src)
 	for _, m := range r.modes {
+		if c.Ty == "any" && m.Expect != "" {
+			continue // a conditional with branches of different types has no static type for a directive to look at
+		}
 		// which directive applies to this result type
 		switch m.Expect {
 		case "bool":
@@ -188,6 +192,58 @@ func (r *replayer) rejectCase(line []byte) error {
 		}
 	}
 	r.sum.Stats["fault: "+c.Fault]++
+	r.sum.Nontrivial++
+	r.sample(c)
+	return nil
+}
+
+// acceptedAlikeCase: C02 over the single-fault texts of MC_Err.  Whatever the checker makes of an ill-typed text,
+// the optimizer must not change it: the text is accepted with the optimizer on iff it is accepted with it off
+// (a constant division by zero apart), and when both programs exist they behave alike on the sample environment.
+func (r *replayer) acceptedAlikeCase(line []byte) error {
+	var c RejectCase
+	if err := json.Unmarshal(line, &c); err != nil {
+		return err
+	}
+	lg := &Log{}
+	for i, text := range c.Texts {
+		mo, mn := Mode{Env: "struct", Optimize: true}, Mode{Env: "struct"}
+		po, cgo := CompileMode(text, mo)
+		pn, cgn := CompileMode(text, mn)
+		r.sum.Executions += 2
+		if (cgo != nil && (cgo.Panic != "" || cgo.Hang)) || (cgn != nil && (cgn.Panic != "" || cgn.Hang)) {
+			r.sum.Stats["compile panics (C04's subject)"]++
+			continue
+		}
+		if (cgo == nil) != (cgn == nil) {
+			g := cgo
+			if g == nil {
+				g = cgn
+			}
+			if cgo != nil && strings.Contains(cgo.Err, "divide by zero") {
+				r.sum.Skipped["const-div-zero-rejected"]++
+				continue
+			}
+			r.fail(Failure{Why: "optimizer-changes-acceptance", Src: text, Mode: mo.String(), Mode2: mn.String(), Got: g,
+				Tags: []string{"fault:" + c.Fault, fmt.Sprintf("text%d", i)}})
+			continue
+		}
+		if cgo != nil {
+			r.sum.Stats["rejected both ways"]++
+			continue
+		}
+		r.sum.Programs += 2
+		e := NewEnv(lg)
+		e.I, e.J, e.F, e.G, e.S, e.T, e.B = 3, 4, 1.5, 2.25, "a", "b", true
+		e.Xs = []int{1, 2, 3}
+		ga := RunMode(text, po, mo, e, lg)
+		gb := RunMode(text, pn, mn, e, lg)
+		r.sum.Executions += 2
+		if ok, why := sameGot(ga, gb); !ok {
+			r.fail(Failure{Why: "differ-" + why, Src: text, Mode: mo.String(), Mode2: mn.String(), Got: &ga, Got2: &gb,
+				Tags: []string{"fault:" + c.Fault, fmt.Sprintf("text%d", i)}})
+		}
+	}
 	r.sum.Nontrivial++
 	r.sample(c)
 	return nil
